@@ -103,13 +103,127 @@ func anyPred(p *PredSpec, k Kind) func(v any) bool {
 	}
 }
 
+// modelFilterStep applies one filter step to the model's view of a selection, restricted
+// to the offsets for which only() holds (a whole collection, or one 16K block).
+func modelFilterStep(m *Model, s sel, f *FStep, first bool, only func(uint32) bool) {
+	switch f.Kind {
+	case "with":
+		for _, n := range f.Names {
+			for o := range s {
+				if only(o) && (!m.exists(n) || !m.has(n, o)) {
+					delete(s, o)
+				}
+			}
+		}
+	case "without":
+		for _, n := range f.Names {
+			for o := range s {
+				if only(o) && m.exists(n) && m.has(n, o) {
+					delete(s, o)
+				}
+			}
+		}
+	case "union", "withunion":
+		asUnion := f.Kind == "union" || first || len(f.Names) == 1
+		if asUnion {
+			lead := first
+			for _, n := range f.Names {
+				if m.exists(n) {
+					if lead {
+						for o := range s {
+							if only(o) && !m.has(n, o) {
+								delete(s, o)
+							}
+						}
+					} else {
+						for o := range m.Rows {
+							if only(o) && m.has(n, o) {
+								s[o] = true
+							}
+						}
+					}
+				}
+				lead = false
+			}
+		} else {
+			for o := range s {
+				if !only(o) {
+					continue
+				}
+				any := false
+				for _, n := range f.Names {
+					any = any || (m.exists(n) && m.has(n, o))
+				}
+				if !any {
+					delete(s, o)
+				}
+			}
+		}
+	default: // value predicates
+		name := f.Names[0]
+		col, ok := m.Col(name)
+		applicable := ok
+		switch f.Kind {
+		case "withint", "withuint", "withfloat":
+			applicable = ok && col.Kind.Numeric()
+		case "withstring":
+			applicable = ok && col.Kind.Textual()
+		}
+		for o := range s {
+			if !only(o) {
+				continue
+			}
+			v, present := m.Get(o, name)
+			if !applicable || !present || (col.Kind == KBool && v.U == 0) || !typedPred(f.Pred, f.Kind, col.Kind, v) {
+				delete(s, o)
+			}
+		}
+	}
+}
+
+// libFilterStep issues one filter step on the real transaction.
+func (x *txnCtx) libFilterStep(f *FStep) {
+	m := x.w.model
+	switch f.Kind {
+	case "with":
+		x.txn.With(f.Names...)
+	case "without":
+		x.txn.Without(f.Names...)
+	case "union":
+		x.txn.Union(f.Names...)
+	case "withunion":
+		x.txn.WithUnion(f.Names...)
+	default:
+		name := f.Names[0]
+		col, _ := m.Col(name)
+		switch f.Kind {
+		case "withvalue":
+			x.txn.WithValue(name, anyPred(f.Pred, col.Kind))
+		case "withint":
+			th := f.Pred.I
+			x.txn.WithInt(name, func(v int64) bool { return v > th })
+		case "withuint":
+			th := uint64(f.Pred.I)
+			x.txn.WithUint(name, func(v uint64) bool { return v > th })
+		case "withfloat":
+			th := f.Pred.F
+			x.txn.WithFloat(name, func(v float64) bool { return v > th })
+		case "withstring":
+			p := f.Pred
+			x.txn.WithString(name, func(v string) bool { return strPred(p, v) })
+		default:
+			panic("unknown filter " + f.Kind)
+		}
+	}
+}
+
 // applyFilter runs a filter chain on the real transaction and, when the world is
 // single-client (exact), evaluates the same chain as set algebra on the model.
 func (x *txnCtx) applyFilter(chain []FStep) sel {
-	m := x.w.model
 	x.initSel()
 	s := x.sel
 	first := &x.first
+	all := func(uint32) bool { return true }
 	for i := range chain {
 		f := &chain[i]
 		if i > 0 && x.w.triggered["union-after-clear"] && s != nil && x.w.viol == nil {
@@ -130,100 +244,9 @@ func (x *txnCtx) applyFilter(chain []FStep) sel {
 		if x.clears(f) {
 			x.cleared = true
 		}
-		switch f.Kind {
-		case "with":
-			x.txn.With(f.Names...)
-			for _, n := range f.Names {
-				for o := range s {
-					if !m.exists(n) || !m.has(n, o) {
-						delete(s, o)
-					}
-				}
-			}
-		case "without":
-			x.txn.Without(f.Names...)
-			for _, n := range f.Names {
-				for o := range s {
-					if m.exists(n) && m.has(n, o) {
-						delete(s, o)
-					}
-				}
-			}
-		case "union", "withunion":
-			asUnion := f.Kind == "union" || *first || len(f.Names) == 1
-			if f.Kind == "union" {
-				x.txn.Union(f.Names...)
-			} else {
-				x.txn.WithUnion(f.Names...)
-			}
-			if s == nil {
-				break
-			}
-			if asUnion {
-				lead := *first
-				for _, n := range f.Names {
-					if m.exists(n) {
-						if lead {
-							for o := range s {
-								if !m.has(n, o) {
-									delete(s, o)
-								}
-							}
-						} else {
-							for o := range m.Rows {
-								if m.has(n, o) {
-									s[o] = true
-								}
-							}
-						}
-					}
-					lead = false
-				}
-			} else {
-				for o := range s {
-					any := false
-					for _, n := range f.Names {
-						any = any || (m.exists(n) && m.has(n, o))
-					}
-					if !any {
-						delete(s, o)
-					}
-				}
-			}
-		default: // value predicates
-			name := f.Names[0]
-			col, ok := m.Col(name)
-			switch f.Kind {
-			case "withvalue":
-				x.txn.WithValue(name, anyPred(f.Pred, col.Kind))
-			case "withint":
-				th := f.Pred.I
-				x.txn.WithInt(name, func(v int64) bool { return v > th })
-			case "withuint":
-				th := uint64(f.Pred.I)
-				x.txn.WithUint(name, func(v uint64) bool { return v > th })
-			case "withfloat":
-				th := f.Pred.F
-				x.txn.WithFloat(name, func(v float64) bool { return v > th })
-			case "withstring":
-				p := f.Pred
-				x.txn.WithString(name, func(v string) bool { return strPred(p, v) })
-			default:
-				panic("unknown filter " + f.Kind)
-			}
-			applicable := ok
-			switch f.Kind {
-			case "withint", "withuint", "withfloat":
-				applicable = ok && col.Kind.Numeric()
-			case "withstring":
-				applicable = ok && col.Kind.Textual()
-			}
-			for o := range s {
-				v, present := m.Get(o, name)
-				if !applicable || !present || (col.Kind == KBool && v.U == 0) || !typedPred(f.Pred, f.Kind, col.Kind, v) {
-					delete(s, o)
-				}
-			}
+		x.libFilterStep(f)
+		if s != nil {
+			modelFilterStep(x.w.model, s, f, *first, all)
 		}
 		*first = false
 	}
@@ -234,6 +257,127 @@ func (x *txnCtx) applyFilter(chain []FStep) sel {
 		}
 	}
 	return s
+}
+
+// filterCapture records, for a filter chain executed in a concurrent world, what the
+// library could see of each block at the moment it worked on it: the hook before every
+// block read latch fires for each (filter step, block); when the thread is released from
+// it, it takes the latch and processes the block atomically (no further hook), so the
+// model's committed state of that block at release time is exactly its input.
+type filterCapture struct {
+	active bool
+	step   int
+	views  [][][]blockView // per filter step, per pass over the blocks (one pass per name for With/Without/Union)
+}
+
+type blockView struct {
+	block uint32
+	m     *Model
+}
+
+func (fc *filterCapture) add(m *Model, block uint32) {
+	for len(fc.views) <= fc.step {
+		fc.views = append(fc.views, nil)
+	}
+	v := &Model{Cols: m.Cols, Indexes: m.Indexes, Rows: map[uint32]map[string]MVal{}}
+	for off, r := range m.Rows {
+		if off>>14 == block {
+			nr := make(map[string]MVal, len(r))
+			for k, val := range r {
+				nr[k] = val
+			}
+			v.Rows[off] = nr
+		}
+	}
+	passes := fc.views[fc.step]
+	if n := len(passes); n == 0 || len(passes[n-1]) > 0 && block <= passes[n-1][len(passes[n-1])-1].block {
+		passes = append(passes, nil) // the block number did not increase: a new pass begins
+	}
+	passes[len(passes)-1] = append(passes[len(passes)-1], blockView{block: block, m: v})
+	fc.views[fc.step] = passes
+}
+
+// filteredRangeConc is the C04 oracle under concurrency ("frange"): a filter chain followed
+// by Range runs while writers commit; the visited offsets must equal the set algebra
+// evaluated per block on the states captured at the moments the library processed them.
+func (x *txnCtx) filteredRangeConc(op *Op) {
+	w := x.w
+	if x.inited {
+		return // one selection per transaction
+	}
+	x.inited = true
+	fc := &filterCapture{}
+	w.capFor[x.thread] = fc
+	defer delete(w.capFor, x.thread)
+	// Txn.initialize clones the fill list inside the first selection call, in this very step
+	s := sel{}
+	for o := range w.model.Rows {
+		s[o] = true
+	}
+	for o := range w.model.Reserved {
+		s[o] = true
+	}
+	first := true
+	chain := op.Filter
+	for i := range chain {
+		// chains touching a missing or inapplicable column truncate the selection (and skip
+		// passes): that is the single-client check's business
+		if x.clears(&chain[i]) {
+			return
+		}
+		for _, n := range chain[i].Names {
+			if !w.model.exists(n) {
+				return
+			}
+		}
+	}
+	if len(chain) == 0 {
+		x.txn.Count()
+	}
+	for i := range chain {
+		f := &chain[i]
+		fc.step, fc.active = i, true
+		x.libFilterStep(f)
+		fc.active = false
+	}
+	var visited []uint32
+	x.txn.Range(func(idx uint32) { visited = append(visited, idx) })
+	for i := range chain {
+		f := &chain[i]
+		var passes [][]blockView
+		if i < len(fc.views) {
+			passes = fc.views[i]
+		}
+		// With/Without/Union (and WithUnion when it delegates to Union) make one pass over the
+		// blocks per name; WithUnion proper and the value predicates make a single pass
+		perName := f.Kind == "with" || f.Kind == "without" || f.Kind == "union" || (f.Kind == "withunion" && (first || len(f.Names) == 1))
+		if perName {
+			for j, name := range f.Names {
+				sub := FStep{Kind: f.Kind, Names: []string{name}}
+				if sub.Kind == "withunion" {
+					sub.Kind = "union"
+				}
+				if j < len(passes) {
+					for _, bv := range passes[j] {
+						b := bv.block
+						modelFilterStep(bv.m, s, &sub, first && j == 0, func(off uint32) bool { return off>>14 == b })
+					}
+				}
+			}
+		} else if len(passes) > 0 {
+			for _, bv := range passes[0] {
+				b := bv.block
+				modelFilterStep(bv.m, s, f, first, func(off uint32) bool { return off>>14 == b })
+			}
+		}
+		first = false
+	}
+	w.stats.Checks++
+	w.stats.probe("filter-chain-under-concurrent-commits")
+	if v := compareOffsets("filter/range-concurrent", visited, s.sorted()); v != nil && w.viol == nil {
+		v.Detail = fmt.Sprintf("Range after %s beside committing writers: %s (per-block set algebra on the states the library could see)", showChain(chain), v.Detail)
+		w.fail(v)
+	}
 }
 
 // clears reports whether a filter step hits a missing (or inapplicable) column, which makes
